@@ -47,3 +47,14 @@ let () =
       else if not (contains (hx errresp) expected) then Viol ("the upgrader's error response does not carry the caller's extra headers (" ^ adapter ^ " adapter)")
       else Pass true
     | _ -> Diff "malformed line")
+
+(* C19N: a complete other pair of sessions run inside one callback of session A (deterministic interleaving at a
+   callback point): A and the inner sessions must see exactly what they see alone *)
+let () =
+  register "C19N" (fun i o -> match i, o with
+    | [side; hook; sel], [same; solo; _nested; bok] ->
+      if solo = "panic" then Viol "handshake panicked"
+      else if same <> "1" then Viol (Printf.sprintf "a %s-side handshake whose %s callback ran other complete sessions in between did not return the results / write the bytes it does alone (selectors: %s)" side hook sel)
+      else if bok <> "1" then Viol (Printf.sprintf "a session run inside the %s callback of another (%s side) did not see the result it sees alone" hook side)
+      else Pass (hook <> "none")
+    | _ -> Diff "malformed line")
